@@ -291,6 +291,9 @@ def classify(prog, clause, variant=("def", "sync", False)):
     Input classes behind recorded known findings come first (one root cause = one signature)."""
     if variant[2] and clause == "UnexpectedRaise" and any(nd["op"] == "getattr" for nd in prog):
         return "fuse.delayed:getattr"
+    names = {nd["dkn"] for nd in prog if nd["dkn"]}
+    if clause in ("Value", "PureKeys") and any(nd["op"] == "const" and not nd["w"] and nd["v"].get("s") in names for nd in prog):
+        return "pure-token:delayed-vs-equal-string"
     feats = set()
     last = prog[-1]
     for nd in prog:
@@ -469,7 +472,8 @@ def N(op, nm="", v=None, xs=(), kn=(), kx=(), w=False, pure=False, dkn="", i=0):
 
 def probe_programs():
     """A few hand-written programs (decided by TLC like every recorded program): pure calls that differ only in a
-    keyword argument / in argument order, nout unpacking, a reflected operator, a Delayed slice bound, a Delayed dict key."""
+    keyword argument / in argument order, nout unpacking, a reflected operator, a Delayed slice bound, a Delayed dict key,
+    a plain string argument equal to a dask_key_name."""
     one, two = {"t": "int", "v": 1}, {"t": "int", "v": 2}
     return [
         [N("const", v=one, w=True), N("const", v=two, w=True), N("call", "f1", kn=["k"], kx=[1], pure=True),
@@ -481,6 +485,9 @@ def probe_programs():
         [N("const", v=one, w=True), N("const", v=two), N("bin", "sub", xs=[2, 1]), N("bin", "sub", xs=[1, 2]), N("call", "f1", xs=[3, 4])],
         [N("const", v=one, w=True), N("const", v=two), N("cont", "list", xs=[1, 2, 1]), N("cont", "slice", xs=[1, 2]),
          N("cont", "list", xs=[3], w=True), N("cont", "dictk", xs=[1, 4]), N("call", "f1", xs=[5, 6], pure=True)],
+        # a Delayed whose key is spelled like a plain string argument
+        [N("const", v={"t": "str", "s": "kk"}), N("const", v=one, w=True), N("call", "f1", xs=[2], dkn="kk"),
+         N("call", "f1", xs=[3, 1], pure=True), N("call", "f1", xs=[1, 3], pure=True), N("call", "f2", xs=[4, 5])],
     ]
 
 
@@ -593,7 +600,7 @@ def core(ctx, levels, cap, nrandom, rng, thorough=False):
         sampled = True
         cases = rng.sample(cases, cap)
     replay_programs(ctx, cases, rng, thorough)
-    progs = [random_program(rng, rng.randint(4, 9)) for _ in range(nrandom)]
+    progs = probe_programs() + [random_program(rng, rng.randint(4, 9)) for _ in range(nrandom)]
     # ... and the enumerated programs again with other build flags (pure flags flipped per call)
     progs += [flip_pure(c["prog"], rng) for c in (rng.sample(cases, min(len(cases), nrandom)) if cases else [])]
     record_programs(ctx, progs, rng, thorough)
@@ -632,8 +639,8 @@ def _show(prog):
 
 def run(ctx):
     if ctx.quick:
-        levels = [(2, 3, [1000, 3, 110], "{TRUE}"), (3, 2, [200, 60], "{TRUE}")]
-        cap, nrandom = 9000, 800
+        levels = [(2, 3, [1000, 4, 120], "{TRUE}"), (3, 2, [250, 60], "{TRUE}")]
+        cap, nrandom = 9000, 1000
     else:
         levels = [(2, 2, [1000, 1000], "{TRUE}"), (3, 3, [300, 8, 100], "{TRUE, FALSE}"), (2, 4, [1000, 3, 5, 100], "{TRUE}")]
         cap, nrandom = 150000, 4000
